@@ -219,3 +219,27 @@ pub fn in_flight_insert(p: &mut PathData, pkt: &SentPacket) {
 pub fn in_flight_bytes(p: &PathData) -> u64 {
     p.in_flight.bytes
 }
+
+/// Native replay body for the E2 query `e2_pathdata_sent_forgotten_leaves_in_flight` (C12), on a real `PathData`
+/// and `PacketSpace`: one ack-eliciting packet, then `n` (> 1000) padded packets nobody has to acknowledge; the
+/// space forgets the oldest of them as it goes.  At every step the bytes in flight equal the bytes of the packets
+/// still tracked, and once every tracked packet has been acknowledged nothing is in flight.
+pub fn sent_forgotten_native(n: u16, size: u16) -> u32 {
+    let now = crate::verif::mk_instant(50, 0).unwrap();
+    let mut space = PacketSpace::new(now);
+    let mut path = mk_path(true, 0, 0, 0, 0, 0).unwrap();
+    path.sent(0, mk_sent_packet(0, size, true).unwrap(), &mut space);
+    for pn in 1..=n as u64 {
+        path.sent(pn, mk_sent_packet(0, size, false).unwrap(), &mut space);
+        let tracked = (0..=pn).filter(|k| space.sent_packets.get(*k).is_some()).count() as u64;
+        assert!(path.in_flight.bytes == tracked * size as u64, "{} bytes in flight, {} packets of {} bytes are tracked", path.in_flight.bytes, tracked, size);
+    }
+    // the late ACK for everything still tracked
+    for pn in 0..=n as u64 {
+        if let Some(pkt) = space.take(pn) {
+            path.remove_in_flight(&pkt);
+        }
+    }
+    assert!(path.in_flight.bytes == 0 && path.in_flight.ack_eliciting == 0, "{} bytes still in flight after everything tracked was acknowledged", path.in_flight.bytes);
+    1
+}
